@@ -18,7 +18,7 @@ type gInfo struct {
 	id     int64
 	state  string
 	lib    bool // has a frame in grpchan/inprocgrpc or grpchan/httpgrpc
-	harn   bool // has a frame of the harness itself
+	harn   bool // is running the harness's stand-in for user code (handler, client actor)
 	top    string
 }
 
@@ -63,7 +63,10 @@ func goroutines() []gInfo {
 		}
 		g := gInfo{id: id, state: st}
 		g.lib = bytes.Contains(body, []byte("grpchan/inprocgrpc.")) || bytes.Contains(body, []byte("grpchan/httpgrpc."))
-		g.harn = bytes.Contains(body, []byte("grpchan/verifharness"))
+		// the harness's stand-ins for user code: the scripted handler and the
+		// client actors are methods of callRun (package main); the in-memory
+		// HTTP transport is environment, not user code
+		g.harn = bytes.Contains(body, []byte("main.(*callRun)."))
 		if l := bytes.IndexByte(body, '\n'); l >= 0 {
 			g.top = string(body[:l])
 		}
